@@ -125,6 +125,12 @@ func runCase(seed uint64, caseNo int, rate int) caseOut {
 		return caseOut{ru.Lines, ru.Viol, ru.Tags}
 	case x < 25:
 		return runFuseCase(r, ru, rate)
+	case x < 28:
+		torsim.GenBystanderCase(r, ru, rate)
+		return caseOut{ru.Lines, ru.Viol, ru.Tags}
+	case x < 30:
+		torsim.GenStallCase(r, ru, rate)
+		return caseOut{ru.Lines, ru.Viol, ru.Tags}
 	}
 	ps, files, single := genLayout(r)
 	larg := layoutArg(files, single)
